@@ -63,7 +63,7 @@ KINDS = [
     "param", "param", "holder", "holder", "linear", "readout", "layernorm", "rmsnorm",
     "embedding", "conv1d", "depthseq", "mlp", "mixed", "depthlist", "transformer", "mhsa",
 ]
-DTYPES = ["float64", "float16", "float32", "bfloat16", "double()", "float()", "bfloat16()"]
+DTYPES = ["float64", "float16", "float32", "bfloat16", "double()", "float()", "bfloat16()", "type(float64)", "type(float32)"]
 TRANSFORMS = ["simulate_fp8", "simulate_format", "track_scales", "compile", "unit_scale"]
 MAX_HANDLES = 8
 
@@ -580,7 +580,10 @@ def execute(plan: Dict[str, Any]) -> Dict[str, Any]:
             elif k == "to":
                 if h.kind != "module":
                     continue
-                if op["dtype"].endswith("()"):  # the method spelling: module.double() / .float() / .bfloat16()
+                if op["dtype"].startswith("type("):  # module.type(dtype)
+                    dt = getattr(torch, op["dtype"][5:-1])
+                    r = h.obj.type(dt)
+                elif op["dtype"].endswith("()"):  # the method spelling: module.double() / .float() / .bfloat16()
                     dt = {"double()": torch.float64, "float()": torch.float32, "bfloat16()": torch.bfloat16}[op["dtype"]]
                     r = getattr(h.obj, op["dtype"][:-2])()
                 else:
